@@ -22,12 +22,12 @@ theorem observations_length_le (acts : List (Action V)) : (observations acts).le
   unfold observations; exact List.length_filterMap_le _ _
 
 /-- **Values.**  The samples of the child that replays `acts` are the samples read off `acts`. -/
-theorem series_eq {B : Nat} (hx : CountExact V B) (htr : LeTrans V) (d : Decl V) (hg : GoodDecl d)
+theorem series_eq (hrf : resetStoresFloat = true) {B : Nat} (hx : CountExact V B) (htr : LeTrans V) (d : Decl V) (hg : GoodDecl d)
     (acts : List (Action V)) (hok : ∀ a ∈ acts, okAct d a) (hlen : acts.length ≤ B) :
     childSamples d (childOf d acts) = seriesSamples d acts := by
   have hobs := observations_length_le acts
   cases hk : d.kind with
-  | counter => simp only [childSamples, seriesSamples, hk, counter_value d hk acts hok]
+  | counter => simp only [childSamples, seriesSamples, hk, counter_value hrf d hk acts hok]
   | gauge => simp only [childSamples, seriesSamples, hk, gauge_value d hk acts]
   | summary =>
     obtain ⟨h1, h2⟩ := summary_cells d hk acts
@@ -57,14 +57,14 @@ theorem series_eq {B : Nat} (hx : CountExact V B) (htr : LeTrans V) (d : Decl V)
 /-- every recorded history has at most `n` calls -/
 def HistLen (n : Nat) (h : Hist V) : Prop := h.single.length ≤ n ∧ ∀ kh ∈ h.table, kh.2.length ≤ n
 
-theorem metric_eq {B : Nat} (hx : CountExact V B) (htr : LeTrans V) (d : Decl V) (hg : GoodDecl d) (h : Hist V)
+theorem metric_eq (hrf : resetStoresFloat = true) {B : Nat} (hx : CountExact V B) (htr : LeTrans V) (d : Decl V) (hg : GoodDecl d) (h : Hist V)
     (hok : AllOk d h) (hlen : HistLen B h) :
     Model.Metrics.metricSamples (metricOf d h) = Spec.Metrics.metricSamples d h := by
   unfold Model.Metrics.metricSamples Spec.Metrics.metricSamples
   cases hl : d.labelnames.isEmpty with
   | true =>
     simp only [metricOf, hl, Bool.not_true, Bool.false_eq_true, if_false, if_true]
-    rw [series_eq hx htr d hg h.single (hok.1 hl) hlen.1]
+    rw [series_eq hrf hx htr d hg h.single (hok.1 hl) hlen.1]
   | false =>
     simp only [metricOf, hl, Bool.not_false, if_true]
     congr 1
@@ -80,18 +80,18 @@ theorem metric_eq {B : Nat} (hx : CountExact V B) (htr : LeTrans V) (d : Decl V)
         intro hall
         have h0 := hall kh (by simp)
         simp only [List.map, List.flatMap_cons]
-        rw [series_eq hx htr d hg kh.2 h0.1 h0.2, ih (fun kh' hm => hall kh' (by simp [hm]))]
+        rw [series_eq hrf hx htr d hg kh.2 h0.1 h0.2, ih (fun kh' hm => hall kh' (by simp [hm]))]
     exact this h.table (fun kh hm => ⟨hok.2 kh hm, hlen.2 kh hm⟩)
 
-theorem collect_eq {B : Nat} (hx : CountExact V B) (htr : LeTrans V) :
+theorem collect_eq (hrf : resetStoresFloat = true) {B : Nat} (hx : CountExact V B) (htr : LeTrans V) :
     ∀ (ds : List (Decl V)) (hs : List (Hist V)), (∀ d ∈ ds, GoodDecl d) → Forall2 AllOk ds hs →
       (∀ h ∈ hs, HistLen B h) →
       Model.Metrics.collect (List.zipWith metricOf ds hs) = collectHist ds hs
   | [], [], _, _, _ => rfl
   | d :: ds, h :: hs, hg, .cons h1 h2, hl => by
     simp only [Model.Metrics.collect, collectHist, List.zipWith, List.zip_cons_cons, List.map]
-    rw [metric_eq hx htr d (hg d (by simp)) h h1 (hl h (by simp))]
-    have := collect_eq hx htr ds hs (fun d' hd' => hg d' (by simp [hd'])) h2 (fun h' hh' => hl h' (by simp [hh']))
+    rw [metric_eq hrf hx htr d (hg d (by simp)) h h1 (hl h (by simp))]
+    have := collect_eq hrf hx htr ds hs (fun d' hd' => hg d' (by simp [hd'])) h2 (fun h' hh' => hl h' (by simp [hh']))
     simp only [Model.Metrics.collect, collectHist] at this
     rw [this]
 
